@@ -359,18 +359,21 @@ Section Sim.
   Qed.
 
   (* ---------------------------------------------------------------- the statement carried by the induction *)
-  Definition post (sl : option nat) (bt ct fin : nat) (B' : list str) (env : fenv) (a : act) (g : gstate)
-             (r : sres_) : Prop :=
+  Definition post (sl : option nat) (bt ct fin : nat) (B' : list str) (env : fenv) (fs0 : list frame)
+             (a : act) (g : gstate) (r : sres_) : Prop :=
     match r with
     | SOk sig env' s' =>
       same_tl env env' /\
       match sig with
       | SigNormal => bound_in B' env' /\
-          exists a' g', xrun name code a g a' g' /\ a_ip a' = fin /\ Rst env' s' a' g' /\ act_same a a'
+          exists a' g', xrun name code a g a' g' /\ a_ip a' = fin /\ Rst env' s' a' g' /\ act_same a a' /\
+                        tl (frames g') = tl fs0
       | SigBreak => exists m a' g', sl = Some m /\
-          xrun name code a g a' g' /\ a_ip a' = bt /\ Rst (popn m env') s' a' g' /\ act_same a a'
+          xrun name code a g a' g' /\ a_ip a' = bt /\ Rst (popn m env') s' a' g' /\ act_same a a' /\
+          frames g' = skipn m fs0
       | SigContinue => exists m a' g', sl = Some m /\
-          xrun name code a g a' g' /\ a_ip a' = ct /\ Rst (popn (m - 1) env') s' a' g' /\ act_same a a'
+          xrun name code a g a' g' /\ a_ip a' = ct /\ Rst (popn (m - 1) env') s' a' g' /\ act_same a a' /\
+          tl (frames g') = skipn m fs0
       | SigReturn _ => False
       end
     | SFailed f s' => exists e g', xfail name code a g e g' /\ err_rel_s f e /\ out g' = rout s'
@@ -389,7 +392,7 @@ Section Sim.
       items_at bt ct k (sitems c sl st) -> k + length (sitems c sl st) < length code ->
       lc_ok il sl bt ct env (k + length (sitems c sl st)) ->
       a_ip a = k -> Rst env s a g ->
-      post sl bt ct (k + length (sitems c sl st)) (after B st) env a g (Eval.exec fuel env st s).
+      post sl bt ct (k + length (sitems c sl st)) (after B st) env (frames g) a g (Eval.exec fuel env st s).
 
   Fixpoint after_l (B : list str) (l : list stmt) : list str :=
     match l with [] => B | st :: l => after_l (after B st) l end.
@@ -400,7 +403,7 @@ Section Sim.
       items_at bt ct k (bitems c sl l) -> k + length (bitems c sl l) < length code ->
       lc_ok il sl bt ct env (k + length (bitems c sl l)) ->
       a_ip a = k -> Rst env s a g ->
-      post sl bt ct (k + length (bitems c sl l)) (after_l B l) env a g (exec_block fuel env l s).
+      post sl bt ct (k + length (bitems c sl l)) (after_l B l) env (frames g) a g (exec_block fuel env l s).
 
   (* ---------------------------------------------------------------- expressions (ExprSim.sim_pure) *)
   Lemma expr_run : forall e d fuel k a g env s B,
@@ -409,7 +412,8 @@ Section Sim.
     a_ip a = k -> a_ops a = [] -> Rg env s g ->
     match eval fuel env e s with
     | EVal v s' => s' = s /\ first_order v /\
-                   exists g', xrun name code a g (upd a (k + length (pcode d e)) [inj v]) g' /\ Rg env s g'
+                   exists g', xrun name code a g (upd a (k + length (pcode d e)) [inj v]) g' /\ Rg env s g' /\
+                              tl (frames g') = tl (frames g)
     | EFail f s' => s' = s /\ exists e0 g', xfail name code a g e0 g' /\ err_rel f e0 /\ out g' = rout s
     | EFuel => True
     | ENoVal _ => False
@@ -425,7 +429,7 @@ Section Sim.
     destruct (eval fuel env e s) as [v s1|s1|f s1|]; cbn [sim_post] in H; [|contradiction| |exact Logic.I].
     - destruct H as (-> & Hfo & g' & R). split; [reflexivity|]. split; [exact Hfo|]. exists g'. split.
       + eapply run_ok_xrun. exact R.
-      + eapply Rg_ext; [exact HR|exact (proj2 R)].
+      + split; [eapply Rg_ext; [exact HR|exact (proj2 R)]|exact (ext_tail _ _ _ _ _ (proj2 R))].
     - destruct H as (-> & e0 & g' & R & Hr & He). split; [reflexivity|]. exists e0, g'. split; [|split].
       + now apply reaches_xreach_failed.
       + exact Hr.
@@ -433,9 +437,9 @@ Section Sim.
   Qed.
 
   (* the failing-expression case of every statement *)
-  Lemma post_expr_fail : forall sl bt ct fin B' env a g f s e0 g',
+  Lemma post_expr_fail : forall sl bt ct fin B' env fs0 a g f s e0 g',
     xfail name code a g e0 g' -> err_rel f e0 -> out g' = rout s ->
-    post sl bt ct fin B' env a g (SFailed f s).
+    post sl bt ct fin B' env fs0 a g (SFailed f s).
   Proof. intros. cbn [post]. exists e0, g'. split; [assumption|]. split; [now apply err_rel_s_of|assumption]. Qed.
 
   Lemma small_code : forall n, n <= length code -> small n.
@@ -495,7 +499,7 @@ Section Sim.
     rewrite exec_SAssign.
     destruct (eval fuel env e s) as [v s1|s1|f s1|]; [|contradiction| |exact Logic.I].
     2:{ destruct He as (-> & e0 & g' & Hf & Hr & Ho). eapply post_expr_fail; eassumption. }
-    destruct He as (-> & Hfo & g1 & R1 & HG1).
+    destruct He as (-> & Hfo & g1 & R1 & HG1 & Hf1).
     destruct (assign env s x v) as [env' s'] eqn:Ea.
     set (k1 := k + length (pcode c e)) in *.
     set (a1 := upd a k1 [inj v]) in *.
@@ -503,13 +507,14 @@ Section Sim.
       as (g2 & Hst & HG2 & Hd & Hbx & Htl).
     cbn [post]. split; [exact Hd|]. split.
     { intros y. rewrite (Hbx y), (Hb y). cbn [after In]. split; intros [H|H]; auto. }
-    exists (upd a (S k1) []), g2. split; [|split; [|split]].
+    exists (upd a (S k1) []), g2. split; [|split; [|split; [|split]]].
     - eapply xrun_trans; [exact R1|].
       eapply (xstep_next name code a1 g1 _ _ k1 (set_ops a1 [])); [reflexivity|exact Hi|apply dec_store|].
       apply (exec_store x a1 _ (inj v)); [reflexivity|exact Hst].
     - cbn. lia.
     - apply Rst_upd; [exact HG2|]. rewrite (same_tl_length _ _ (Rg_ne _ _ _ HG) Hd). exact Hss.
     - repeat split.
+    - exact (eq_trans Htl Hf1).
   Qed.
 
   Lemma print_correct : forall e, stmt_spec (SPrint e).
@@ -525,14 +530,14 @@ Section Sim.
     rewrite exec_SPrint.
     destruct (eval fuel env e s) as [v s1|s1|f s1|]; [|contradiction| |exact Logic.I].
     2:{ destruct He as (-> & e0 & g' & Hf & Hr & Ho). eapply post_expr_fail; eassumption. }
-    destruct He as (-> & Hfo & g1 & R1 & HG1).
+    destruct He as (-> & Hfo & g1 & R1 & HG1 & Hf1).
     destruct (show_inj v Hfo) as (l & Hrs & Hsh). rewrite Hrs.
     set (k1 := k + length (pcode c e)) in *.
     set (a1 := upd a k1 [inj v]) in *.
     set (g2 := emit_line (trc name a1 g1 (mkI OP_PRINTN [s_star])) l).
     set (a2 := set_ip a1 (S k1)).
     cbn [post]. split; [apply same_tl_refl; exact (Rg_ne _ _ _ HG)|]. split; [exact Hb|].
-    exists (upd a (S (S k1)) []), (trc name a2 g2 (mkI OP_VOID [])). split; [|split; [|split]].
+    exists (upd a (S (S k1)) []), (trc name a2 g2 (mkI OP_VOID [])). split; [|split; [|split; [|split]]].
     - eapply xrun_trans; [exact R1|]. eapply xrun_trans.
       + eapply (xstep_next name code a1 g1 _ _ k1 a1); [reflexivity|exact Hi1|apply dec_printn|].
         apply (exec_print a1 _ (inj v) l); [reflexivity|exact Hsh].
@@ -541,6 +546,7 @@ Section Sim.
     - cbn. lia.
     - apply Rst_upd; [|exact Hss]. apply Rg_trc. apply print_rel. apply Rg_trc. exact HG1.
     - repeat split.
+    - exact Hf1.
   Qed.
 
   Lemma expr_stmt_correct : forall e, stmt_spec (SExpr e).
@@ -556,17 +562,18 @@ Section Sim.
     rewrite exec_SExpr.
     destruct (eval fuel env e s) as [v s1|s1|f s1|]; [|contradiction| |exact Logic.I].
     2:{ destruct He as (-> & e0 & g' & Hf & Hr & Ho). eapply post_expr_fail; eassumption. }
-    destruct He as (-> & Hfo & g1 & R1 & HG1).
+    destruct He as (-> & Hfo & g1 & R1 & HG1 & Hf1).
     set (k1 := k + length (pcode c e)) in *.
     set (a1 := upd a k1 [inj v]) in *.
     cbn [post]. split; [apply same_tl_refl; exact (Rg_ne _ _ _ HG)|]. split; [exact Hb|].
-    exists (upd a (S k1) []), (trc name a1 g1 (mkI OP_VOID [])). split; [|split; [|split]].
+    exists (upd a (S k1) []), (trc name a1 g1 (mkI OP_VOID [])). split; [|split; [|split; [|split]]].
     - eapply xrun_trans; [exact R1|].
       eapply (xstep_next name code a1 g1 _ _ k1 (set_ops a1 [])); [reflexivity|exact Hi1|apply dec_void|].
       apply exec_void.
     - cbn. lia.
     - apply Rst_upd; [|exact Hss]. apply Rg_trc. exact HG1.
     - repeat split.
+    - exact Hf1.
   Qed.
 
   Lemma assert_correct : forall e sp, stmt_spec (SAssert e sp).
@@ -582,24 +589,25 @@ Section Sim.
     rewrite exec_SAssert.
     destruct (eval fuel env e s) as [v s1|s1|f s1|]; [|contradiction| |exact Logic.I].
     2:{ destruct He as (-> & e0 & g' & Hf & Hr & Ho). eapply post_expr_fail; eassumption. }
-    destruct He as (-> & Hfo & g1 & R1 & HG1).
+    destruct He as (-> & Hfo & g1 & R1 & HG1 & Hf1).
     set (k1 := k + length (pcode c e)) in *.
     set (a1 := upd a k1 [inj v]) in *.
     set (i1 := mkI OP_ASSERT [sp]) in *.
     pose proof (exec_assert sp a1 (trc name a1 g1 i1) (inj v) eq_refl) as Hx.
     assert (Hfail : forall f e0, exec_d (DAssert (Some sp)) a1 (trc name a1 g1 i1) = SFail e0 -> err_rel_s f e0 ->
-                                 post sl bt ct (k + (length (pcode c e) + 1)) B env a g (SFailed f s)).
+                                 post sl bt ct (k + (length (pcode c e) + 1)) B env (frames g) a g (SFailed f s)).
     { intros f e0 Hex Hrel. cbn [post]. exists e0, (trc name a1 g1 i1). split; [|split; [exact Hrel|exact (Rg_out _ _ _ HG1)]].
       eapply xrun_fail; [exact R1|]. eapply xstep_fail; [reflexivity|exact Hi1|apply dec_assert|exact Hex]. }
     destruct v as [z|[|]|t| |p bd ev]; cbn [inj val_equals] in Hx; try contradiction.
     - eapply Hfail; [exact Hx|]. cbn. auto.
     - cbn [post]. split; [apply same_tl_refl; exact (Rg_ne _ _ _ HG)|]. split; [exact Hb|].
-      exists (upd a (S k1) []), (trc name a1 g1 i1). split; [|split; [|split]].
+      exists (upd a (S k1) []), (trc name a1 g1 i1). split; [|split; [|split; [|split]]].
       + eapply xrun_trans; [exact R1|].
         eapply (xstep_next name code a1 g1 _ _ k1 (set_ops a1 [])); [reflexivity|exact Hi1|apply dec_assert|exact Hx].
       + cbn. lia.
       + apply Rst_upd; [|exact Hss]. apply Rg_trc. exact HG1.
       + repeat split.
+      + exact Hf1.
     - eapply Hfail; [exact Hx|]. reflexivity.
     - eapply Hfail; [exact Hx|]. cbn. auto.
     - eapply Hfail; [exact Hx|]. cbn. right. eexists. reflexivity.
@@ -619,7 +627,7 @@ Section Sim.
     rewrite exec_SOpAssign.
     destruct (eval fuel env e s) as [v s1|s1|f s1|]; [|contradiction| |exact Logic.I].
     2:{ destruct He as (-> & e0 & g' & Hf & Hr & Ho'). eapply post_expr_fail; eassumption. }
-    destruct He as (-> & Hfo & g1 & R1 & HG1).
+    destruct He as (-> & Hfo & g1 & R1 & HG1 & Hf1).
     set (k1 := k + length (pcode (S c) e)) in *.
     set (a1 := upd a k1 [inj v]) in *.
     set (i1 := mkI OP_BIN_OP_ASSIGN [binop_sym o ++ [61%N]; x]) in *.
@@ -640,7 +648,7 @@ Section Sim.
       set (g2 := cell_set g1t cx' (inj r)).
       set (a2 := set_ip (set_ops a1 [inj r]) (S k1)).
       cbn [post]. split; [apply same_tl_refl; exact (Rg_ne _ _ _ HG)|]. split; [exact Hb|].
-      exists (upd a (S (S k1)) []), (trc name a2 g2 (mkI OP_VOID [])). split; [|split; [|split]].
+      exists (upd a (S (S k1)) []), (trc name a2 g2 (mkI OP_VOID [])). split; [|split; [|split; [|split]]].
       + eapply xrun_trans; [exact R1|]. eapply xrun_trans.
         * eapply (xstep_next name code a1 g1 _ _ k1 (set_ops a1 [inj r])); [reflexivity|exact Hi1|apply dec_bin_op_assign|exact Hx2].
         * eapply (xstep_next name code a2 g2 _ _ (S k1) (set_ops a2 [])); [reflexivity|exact Hi2|apply dec_void|].
@@ -648,6 +656,7 @@ Section Sim.
       + cbn. lia.
       + apply Rst_upd; [|exact Hss]. apply Rg_trc. apply update_rel; assumption.
       + repeat split.
+      + exact Hf1.
     - destruct Hag as (-> & e0 & Hbo & Hrel). rewrite Hbo in Hx1.
       cbn [post]. exists e0, g1t. split; [|split; [now apply err_rel_s_of|exact (Rg_out _ _ _ HG1)]].
       eapply xrun_fail; [exact R1|]. eapply xstep_fail; [reflexivity|exact Hi1|apply dec_bin_op_assign|exact Hx1].
@@ -664,6 +673,12 @@ Section Sim.
     cbn [popn locals set_ip a_ss]. rewrite skipn_length. lia.
   Qed.
 
+  Lemma tl_skipn : forall A n (l : list A), tl (skipn n l) = skipn (S n) l.
+  Proof.
+    intros A. induction n as [|n IH]; intros [|x l]; try reflexivity.
+    cbn [skipn]. rewrite IH. reflexivity.
+  Qed.
+
   Lemma break_correct : stmt_spec SBreak.
   Proof.
     intros il sl bt ct fuel k a g env s B Hok Hb Hit Hend Hlc Hip HR.
@@ -674,14 +689,15 @@ Section Sim.
     destruct HR as (HG & Hops & Hss).
     change (Eval.exec (S fuel) env SBreak s) with (SOk SigBreak env s).
     set (i1 := mkI OP_JMP_POP [sN (bt - k); sN m]) in *.
-    destruct (popn_rel m env s (trc name a g i1) (Rg_trc _ _ _ _ _ _ HG) Hm2) as (g2 & Hpop & HG2 & _).
+    destruct (popn_rel m env s (trc name a g i1) (Rg_trc _ _ _ _ _ _ HG) Hm2) as (g2 & Hpop & HG2 & Hfr2 & _).
     cbn [post]. split; [apply same_tl_refl; exact (Rg_ne _ _ _ HG)|].
-    exists m, (set_ip a bt), g2. split; [reflexivity|]. split; [|split; [reflexivity|split]].
+    exists m, (set_ip a bt), g2. split; [reflexivity|]. split; [|split; [reflexivity|split; [|split]]].
     - eapply (xstep_gotopop name code a g i1 _ k _ m a); [exact Hip|exact Hi| |apply exec_jmp_pop| |exact Hpop].
       + apply dec_jmp_pop2; apply small_code; lia.
       + rewrite Hip. rewrite goto_fwd by lia. f_equal. lia.
     - eapply Rst_popn; eassumption.
     - repeat split.
+    - exact Hfr2.
   Qed.
 
   Lemma continue_correct : stmt_spec SContinue.
@@ -694,35 +710,58 @@ Section Sim.
     destruct HR as (HG & Hops & Hss).
     change (Eval.exec (S fuel) env SContinue s) with (SOk SigContinue env s).
     set (i1 := mkI OP_JMP_POP [sN (ct - k); sN (m - 1)]) in *.
-    destruct (popn_rel (m - 1) env s (trc name a g i1) (Rg_trc _ _ _ _ _ _ HG) ltac:(lia)) as (g2 & Hpop & HG2 & _).
+    destruct (popn_rel (m - 1) env s (trc name a g i1) (Rg_trc _ _ _ _ _ _ HG) ltac:(lia)) as (g2 & Hpop & HG2 & Hfr2 & _).
     cbn [post]. split; [apply same_tl_refl; exact (Rg_ne _ _ _ HG)|].
-    exists m, (set_ip a ct), g2. split; [reflexivity|]. split; [|split; [reflexivity|split]].
+    exists m, (set_ip a ct), g2. split; [reflexivity|]. split; [|split; [reflexivity|split; [|split]]].
     - eapply (xstep_gotopop name code a g i1 _ k _ (m - 1) a); [exact Hip|exact Hi| |apply exec_jmp_pop| |exact Hpop].
       + apply dec_jmp_pop2; apply small_code; lia.
       + rewrite Hip. rewrite goto_fwd by lia. f_equal. lia.
     - eapply Rst_popn; eassumption.
     - repeat split.
+    - rewrite Hfr2. cbn [trc add_trace frames]. rewrite tl_skipn. f_equal. lia.
   Qed.
 
   (* ================================================================ sequencing *)
-  Lemma post_seq : forall sl bt ct fin B' env a g env1 a1 g1 r,
+  Lemma post_seq : forall sl bt ct fin B' env fs0 a g env1 a1 g1 r,
     xrun name code a g a1 g1 -> same_tl env env1 -> act_same a a1 ->
-    post sl bt ct fin B' env1 a1 g1 r -> post sl bt ct fin B' env a g r.
+    post sl bt ct fin B' env1 fs0 a1 g1 r -> post sl bt ct fin B' env fs0 a g r.
   Proof.
-    intros sl bt ct fin B' env a g env1 a1 g1 r Hrun Hd Hact H.
+    intros sl bt ct fin B' env fs0 a g env1 a1 g1 r Hrun Hd Hact H.
     destruct r as [sig env' s'|f s'|]; cbn [post] in *; [| |exact Logic.I].
     - destruct H as [Hd' H]. split; [eapply same_tl_trans; eassumption|].
       destruct sig as [| | |rv]; [| | |exact H].
-      + destruct H as (HB & a' & g' & R & Hip & HR & Ha). split; [exact HB|]. exists a', g'.
+      + destruct H as (HB & a' & g' & R & Hip & HR & Ha & Hf). split; [exact HB|]. exists a', g'.
         split; [eapply xrun_trans; eassumption|]. split; [exact Hip|]. split; [exact HR|].
-        eapply act_same_trans; eassumption.
-      + destruct H as (m & a' & g' & Hsl & R & Hip & HR & Ha). exists m, a', g'. split; [exact Hsl|].
+        split; [eapply act_same_trans; eassumption|exact Hf].
+      + destruct H as (m & a' & g' & Hsl & R & Hip & HR & Ha & Hf). exists m, a', g'. split; [exact Hsl|].
         split; [eapply xrun_trans; eassumption|]. split; [exact Hip|]. split; [exact HR|].
-        eapply act_same_trans; eassumption.
-      + destruct H as (m & a' & g' & Hsl & R & Hip & HR & Ha). exists m, a', g'. split; [exact Hsl|].
+        split; [eapply act_same_trans; eassumption|exact Hf].
+      + destruct H as (m & a' & g' & Hsl & R & Hip & HR & Ha & Hf). exists m, a', g'. split; [exact Hsl|].
         split; [eapply xrun_trans; eassumption|]. split; [exact Hip|]. split; [exact HR|].
-        eapply act_same_trans; eassumption.
+        split; [eapply act_same_trans; eassumption|exact Hf].
     - destruct H as (e & g' & Hf & Hr & Ho). exists e, g'. split; [eapply xrun_fail; eassumption|]. auto.
+  Qed.
+
+  Lemma skipn_tl_eq : forall A m (l1 l2 : list A), 1 <= m -> tl l1 = tl l2 -> skipn m l1 = skipn m l2.
+  Proof.
+    intros A m l1 l2 Hm H. destruct m as [|m]; [lia|]. rewrite !skipn_S_tl. now rewrite H.
+  Qed.
+
+  (* the reference frames may be replaced by any list with the same tail (break / continue pop >= 1 frame) *)
+  Lemma post_rebase : forall sl bt ct fin B' env fs1 fs0 a g r,
+    post sl bt ct fin B' env fs1 a g r -> tl fs1 = tl fs0 -> (forall m, sl = Some m -> 1 <= m) ->
+    post sl bt ct fin B' env fs0 a g r.
+  Proof.
+    intros sl bt ct fin B' env fs1 fs0 a g r H Htl Hm.
+    destruct r as [sig env' s'|f s'|]; cbn [post] in *; [|exact H|exact Logic.I].
+    destruct H as [Hd H]. split; [exact Hd|].
+    destruct sig as [| | |rv]; [| | |exact H].
+    - destruct H as (HB & a' & g' & R & Hip & HR & Ha & Hf). split; [exact HB|]. exists a', g'.
+      repeat (split; [assumption|]). congruence.
+    - destruct H as (m & a' & g' & Hsl & R & Hip & HR & Ha & Hf). exists m, a', g'.
+      repeat (split; [assumption|]). rewrite Hf. apply skipn_tl_eq; [now apply Hm|exact Htl].
+    - destruct H as (m & a' & g' & Hsl & R & Hip & HR & Ha & Hf). exists m, a', g'.
+      repeat (split; [assumption|]). rewrite Hf. apply skipn_tl_eq; [now apply Hm|exact Htl].
   Qed.
 
   Lemma lc_ok_mono : forall il sl bt ct env env' hi hi', lc_ok il sl bt ct env hi -> hi' <= hi ->
@@ -733,15 +772,15 @@ Section Sim.
     rewrite Hlen. repeat split; try assumption; lia.
   Qed.
 
-  Lemma after_incl : forall B st x, In x B -> In x (after B st).
-  Proof. intros B st x H. destruct st; cbn [after]; auto. now right. Qed.
+  Lemma lc_ok_m : forall il sl bt ct env hi, lc_ok il sl bt ct env hi -> forall m, sl = Some m -> 1 <= m.
+  Proof. intros il sl bt ct env hi [_ H] m E. exact (proj1 (H m E)). Qed.
 
   Lemma block_of_stmts : forall l, Forall stmt_spec l -> block_spec l.
   Proof.
     induction l as [|st l IH]; intros HF il sl bt ct fuel k a g env s B Hok Hb Hit Hend Hlc Hip HR.
     - destruct fuel as [|fuel]; [exact Logic.I|]. rewrite exec_block_nil. cbn [bitems length post after_l].
       split; [apply same_tl_refl; exact (Rg_ne _ _ _ (proj1 HR))|]. split; [exact Hb|]. exists a, g.
-      split; [apply xrun_refl|]. split; [lia|]. split; [exact HR|apply act_same_refl].
+      split; [apply xrun_refl|]. split; [lia|]. split; [exact HR|]. split; [apply act_same_refl|reflexivity].
     - pose proof (Forall_inv HF) as Hst. pose proof (Forall_inv_tail HF) as Hl. specialize (IH Hl).
       destruct fuel as [|fuel]; [exact Logic.I|]. rewrite exec_block_cons.
       cbn [ok_block] in Hok. apply Bool.andb_true_iff in Hok as [Hok1 Hok2].
@@ -750,12 +789,12 @@ Section Sim.
                       (lc_ok_mono il sl bt ct env env _ (k + length (sitems c sl st)) Hlc ltac:(lia) eq_refl) Hip HR) as H1.
       destruct (Eval.exec fuel env st s) as [sig env1 s1|f s1|]; [|exact H1|exact Logic.I].
       destruct sig as [| | |rv].
-      + cbn [post] in H1. destruct H1 as (Hd & HB1 & a1 & g1 & R1 & Hip1 & HR1 & Ha1).
+      + cbn [post] in H1. destruct H1 as (Hd & HB1 & a1 & g1 & R1 & Hip1 & HR1 & Ha1 & Hf1).
         pose proof (IH il sl bt ct fuel (k + length (sitems c sl st)) a1 g1 env1 s1 (after B st) Hok2 HB1 Hit2 ltac:(lia)
                        (lc_ok_mono il sl bt ct env env1 _ (k + length (sitems c sl st) + length (bitems c sl l)) Hlc ltac:(lia) (same_tl_length _ _ (Rg_ne _ _ _ (proj1 HR)) Hd)) Hip1 HR1) as H2.
         rewrite Nat.add_assoc.
         eapply post_seq; [exact R1|exact Hd|exact Ha1|].
-        exact H2.
+        eapply post_rebase; [exact H2|exact Hf1|exact (lc_ok_m _ _ _ _ _ _ Hlc)].
       + exact H1.
       + exact H1.
       + cbn [post] in H1. destruct H1 as [_ []].
@@ -775,19 +814,20 @@ Section Sim.
   Proof. reflexivity. Qed.
 
   (* after a normal completion at fin1 the machine runs on to fin2 (e.g. the `jmp` over the else branch) *)
-  Lemma post_extend : forall sl bt ct fin1 fin2 B' env a g r,
-    post sl bt ct fin1 B' env a g r ->
+  Lemma post_extend : forall sl bt ct fin1 fin2 B' env fs0 a g r,
+    post sl bt ct fin1 B' env fs0 a g r ->
     (forall env' s' a' g', a_ip a' = fin1 -> Rst env' s' a' g' ->
-       exists a'' g'', xrun name code a' g' a'' g'' /\ a_ip a'' = fin2 /\ Rst env' s' a'' g'' /\ act_same a' a'') ->
-    post sl bt ct fin2 B' env a g r.
+       exists a'' g'', xrun name code a' g' a'' g'' /\ a_ip a'' = fin2 /\ Rst env' s' a'' g'' /\ act_same a' a'' /\
+                       frames g'' = frames g') ->
+    post sl bt ct fin2 B' env fs0 a g r.
   Proof.
-    intros sl bt ct fin1 fin2 B' env a g r H Hx.
+    intros sl bt ct fin1 fin2 B' env fs0 a g r H Hx.
     destruct r as [sig env' s'|f s'|]; cbn [post] in *; [|exact H|exact Logic.I].
     destruct H as [Hd H]. split; [exact Hd|]. destruct sig; try exact H.
-    destruct H as (HB & a' & g' & R & Hip & HR & Ha). split; [exact HB|].
-    destruct (Hx env' s' a' g' Hip HR) as (a'' & g'' & R' & Hip' & HR' & Ha').
+    destruct H as (HB & a' & g' & R & Hip & HR & Ha & Hf). split; [exact HB|].
+    destruct (Hx env' s' a' g' Hip HR) as (a'' & g'' & R' & Hip' & HR' & Ha' & Hf').
     exists a'', g''. split; [eapply xrun_trans; eassumption|]. split; [exact Hip'|]. split; [exact HR'|].
-    eapply act_same_trans; eassumption.
+    split; [eapply act_same_trans; eassumption|]. rewrite Hf'. exact Hf.
   Qed.
 
   (* the machine has just pushed the block frame (if_stmt / else_stmt); body, then `done` *)
@@ -798,7 +838,7 @@ Section Sim.
       kb + length (bitems c (option_map S sl) body) + 1 < length code ->
       lc_ok il sl bt ct env (kb + length (bitems c (option_map S sl) body) + 1) ->
       a_ip a = kb -> Rst env s a g -> special lb = true ->
-      post sl bt ct (kb + length (bitems c (option_map S sl) body) + 1) B env
+      post sl bt ct (kb + length (bitems c (option_map S sl) body) + 1) B env (frames g)
            (set_ss a (S (a_ss a))) (push_frame g lb) (in_block_ fuel body env s).
   Proof.
     intros body Hbody il sl bt ct fuel kb a g env s B lb Hok Hb Hit Hend Hlc Hip HR Hlb.
@@ -828,30 +868,31 @@ Section Sim.
     split; [exact Hd'|].
     destruct sig as [| | |rv]; [| | |exact H].
     - (* normal: execute `done` *)
-      destruct H as (_ & a2 & g2 & R2 & Hip2 & (HG2 & Hops2 & Hss2) & Ha2).
+      destruct H as (_ & a2 & g2 & R2 & Hip2 & (HG2 & Hops2 & Hss2) & Ha2 & Hf2).
       set (i1 := mkI OP_DONE []) in *.
-      destruct (popn_rel 1 env2 s2 (trc name a2 g2 i1) (Rg_trc _ _ _ _ _ _ HG2) ltac:(lia)) as (g3 & Hpop & HG3 & _).
+      destruct (popn_rel 1 env2 s2 (trc name a2 g2 i1) (Rg_trc _ _ _ _ _ _ HG2) ltac:(lia)) as (g3 & Hpop & HG3 & Hf3 & _).
       cbn [pop_frames] in Hpop.
       destruct (pop_frame (trc name a2 g2 i1)) as [g3'|] eqn:Epop; [|discriminate]. inversion Hpop; subst g3'.
       destruct (a_ss a2) as [|k'] eqn:Ess; [lia|].
       rewrite popn_1 in HG3.
       split; [eapply bound_in_eq; [exact Hb|exact Htl]|].
-      exists (set_ip (set_ss a2 k') (S (a_ip a2))), g3. split; [|split; [|split]].
+      exists (set_ip (set_ss a2 k') (S (a_ip a2))), g3. split; [|split; [|split; [|split]]].
       + eapply xrun_trans; [exact R2|].
         eapply (xstep_popscope name code a2 g2 i1 _ (kb + len) a2); [exact Hip2|exact Hid|apply dec_done|apply exec_done|exact Ess|exact Epop].
       + cbn [set_ip a_ip]. lia.
       + split; [exact HG3|]. split; [exact Hops2|].
         cbn [pop_scope locals set_ip set_ss a_ss]. destruct (locals env2); cbn [tl length] in *; lia.
       + destruct Ha2 as (A1 & A2 & A3). repeat split; assumption.
+      + rewrite Hf3. cbn [trc add_trace frames]. rewrite (skipn_S_tl _ 0). cbn [skipn]. rewrite Hf2. reflexivity.
     - (* break: m+1 frames were popped, control is at bt *)
-      destruct H as (m' & a2 & g2 & Esl & R2 & Hip2 & HR2 & Ha2).
+      destruct H as (m' & a2 & g2 & Esl & R2 & Hip2 & HR2 & Ha2 & Hf2).
       destruct sl as [m|]; [|discriminate]. cbn [option_map] in Esl. inversion Esl; subst m'.
-      exists m, a2, g2. split; [reflexivity|]. split; [exact R2|]. split; [exact Hip2|]. split; [|exact Ha2].
+      exists m, a2, g2. split; [reflexivity|]. split; [exact R2|]. split; [exact Hip2|]. split; [|split; [exact Ha2|exact Hf2]].
       rewrite popn_S_pop. exact HR2.
-    - destruct H as (m' & a2 & g2 & Esl & R2 & Hip2 & HR2 & Ha2).
+    - destruct H as (m' & a2 & g2 & Esl & R2 & Hip2 & HR2 & Ha2 & Hf2).
       destruct sl as [m|]; [|discriminate]. cbn [option_map] in Esl. inversion Esl; subst m'.
       destruct Hlc as [_ H1]. destruct (H1 m eq_refl) as (A1 & _).
-      exists m, a2, g2. split; [reflexivity|]. split; [exact R2|]. split; [exact Hip2|]. split; [|exact Ha2].
+      exists m, a2, g2. split; [reflexivity|]. split; [exact R2|]. split; [exact Hip2|]. split; [|split; [exact Ha2|exact Hf2]].
       rewrite popn_S_pop. replace (S (m - 1)) with (S m - 1) by lia. exact HR2.
   Qed.
 
@@ -873,7 +914,7 @@ Section Sim.
     rewrite exec_SIf. cbn [after].
     destruct (eval fuel env cnd s) as [v s1|s1|f s1|]; [|contradiction| |exact Logic.I].
     2:{ destruct He as (-> & e0 & g' & Hf & Hr & Ho). eapply post_expr_fail; eassumption. }
-    destruct He as (-> & Hfo & g1 & R1 & HG1).
+    destruct He as (-> & Hfo & g1 & R1 & HG1 & Hf1).
     set (k1 := k + length (pcode c cnd)) in *.
     set (a1 := upd a k1 [inj v]) in *.
     match type of Hi1 with _ = Some {| op := _; args := [sN ?n] |} => set (off := n) in * end.
@@ -881,7 +922,7 @@ Section Sim.
     assert (Hdec : decode i1 = DOk (DIf (Z.of_nat off))) by (apply dec_if; apply small_code; unfold off; lia).
     set (g1t := trc name a1 g1 i1).
     assert (HG1t : Rg env s g1t) by (apply Rg_trc; exact HG1).
-    assert (Hnb : (forall b, v <> RBool b) -> post sl bt ct (k + (length (pcode c cnd) + (1 + (length bi + 1)))) B env a g
+    assert (Hnb : (forall b, v <> RBool b) -> post sl bt ct (k + (length (pcode c cnd) + (1 + (length bi + 1)))) B env (frames g) a g
                                                    (SFailed (FType 12) s)).
     { intros Hv. cbn [post]. exists E_not_bool, g1t. split; [|split; [cbn; auto|exact (Rg_out _ _ _ HG1)]].
       eapply xrun_fail; [exact R1|]. eapply xstep_fail; [reflexivity|exact Hi1|exact Hdec|].
@@ -891,26 +932,28 @@ Section Sim.
     destruct b.
     - (* true: push <if>, run the body, done *)
       set (a1' := upd a (S k1) []).
-      assert (Hblk : post sl bt ct (k + (length (pcode c cnd) + (1 + (length bi + 1)))) B env
+      assert (Hblk : post sl bt ct (k + (length (pcode c cnd) + (1 + (length bi + 1)))) B env (frames g1t)
                           (set_ss a1' (S (a_ss a1'))) (push_frame g1t LIf) (in_block_ fuel body env s)).
       { replace (k + (length (pcode c cnd) + (1 + (length bi + 1)))) with (S k1 + length bi + 1) by (unfold k1; lia).
         apply (in_block_run body Hbody il sl bt ct fuel (S k1) a1' g1t env s B LIf); try assumption; try reflexivity.
         - fold bi. unfold k1. lia.
         - fold bi. eapply lc_ok_mono; [exact Hlc|unfold k1; lia|reflexivity].
         - apply Rst_upd; assumption. }
-      eapply post_seq; [|apply same_tl_refl; exact (Rg_ne _ _ _ HG)| |exact Hblk].
+      eapply post_seq; [|apply same_tl_refl; exact (Rg_ne _ _ _ HG)| |
+        eapply post_rebase; [exact Hblk|exact Hf1|exact (lc_ok_m _ _ _ _ _ _ Hlc)]].
       + eapply xrun_trans; [exact R1|].
         eapply (xstep_push name code a1 g1 i1 _ k1 LIf (set_ops a1 [])); [reflexivity|exact Hi1|exact Hdec|exact Hx].
       + repeat split.
     - (* false: jump over the body *)
       cbn [post]. split; [apply same_tl_refl; exact (Rg_ne _ _ _ HG)|]. split; [exact Hb|].
-      exists (upd a (k1 + off) []), g1t. split; [|split; [|split]].
+      exists (upd a (k1 + off) []), g1t. split; [|split; [|split; [|split]]].
       + eapply xrun_trans; [exact R1|].
         eapply (xstep_goto name code a1 g1 i1 _ k1 _ (set_ops a1 [])); [reflexivity|exact Hi1|exact Hdec|exact Hx|].
         apply goto_fwd. cbn [set_ops a_ip a1 upd set_ip]. unfold off, k1. lia.
       + cbn. unfold off, k1. lia.
       + apply Rst_upd; assumption.
       + repeat split.
+      + exact Hf1.
   Qed.
 
   Lemma ifelse_correct : forall cnd body els, block_spec body -> block_spec els -> stmt_spec (SIfElse cnd body els).
@@ -932,7 +975,7 @@ Section Sim.
     rewrite exec_SIfElse. cbn [after].
     destruct (eval fuel env cnd s) as [v s1|s1|f s1|]; [|contradiction| |exact Logic.I].
     2:{ destruct He as (-> & e0 & g' & Hf & Hr & Ho). eapply post_expr_fail; eassumption. }
-    destruct He as (-> & Hfo & g1 & R1 & HG1).
+    destruct He as (-> & Hfo & g1 & R1 & HG1 & Hf1).
     set (k1 := k + length (pcode c cnd)) in *.
     set (a1 := upd a k1 [inj v]) in *.
     set (kj := S k1 + (length bi + 1)) in *.
@@ -944,7 +987,7 @@ Section Sim.
     assert (Hdec : decode i1 = DOk (DIf (Z.of_nat off))) by (apply dec_if; apply small_code; unfold off; lia).
     set (g1t := trc name a1 g1 i1).
     assert (HG1t : Rg env s g1t) by (apply Rg_trc; exact HG1).
-    assert (Hnb : (forall b, v <> RBool b) -> post sl bt ct fin B env a g (SFailed (FType 12) s)).
+    assert (Hnb : (forall b, v <> RBool b) -> post sl bt ct fin B env (frames g) a g (SFailed (FType 12) s)).
     { intros Hv. cbn [post]. exists E_not_bool, g1t. split; [|split; [cbn; auto|exact (Rg_out _ _ _ HG1)]].
       eapply xrun_fail; [exact R1|]. eapply xstep_fail; [reflexivity|exact Hi1|exact Hdec|].
       apply (exec_if_nb _ a1 g1t (inj v)); [reflexivity|now apply not_bool_inj]. }
@@ -953,7 +996,7 @@ Section Sim.
     destruct b.
     - (* true: push <if>, body, done, jmp over the else branch *)
       set (a1' := upd a (S k1) []).
-      assert (Hblk : post sl bt ct kj B env (set_ss a1' (S (a_ss a1'))) (push_frame g1t LIf) (in_block_ fuel body env s)).
+      assert (Hblk : post sl bt ct kj B env (frames g1t) (set_ss a1' (S (a_ss a1'))) (push_frame g1t LIf) (in_block_ fuel body env s)).
       { replace kj with (S k1 + length bi + 1) by (unfold kj; lia).
         apply (in_block_run body Hbody il sl bt ct fuel (S k1) a1' g1t env s B LIf); try assumption; try reflexivity.
         - fold bi. unfold fin, k1 in *. lia.
@@ -963,29 +1006,31 @@ Section Sim.
       + eapply xrun_trans; [exact R1|].
         eapply (xstep_push name code a1 g1 i1 _ k1 LIf (set_ops a1 [])); [reflexivity|exact Hi1|exact Hdec|exact Hx].
       + repeat split.
-      + eapply post_extend; [exact Hblk|].
+      + eapply post_extend; [eapply post_rebase; [exact Hblk|exact Hf1|exact (lc_ok_m _ _ _ _ _ _ Hlc)]|].
         intros env' s' a' g' Hip' (HG' & Hops' & Hss').
         set (ij := mkI OP_JMP [sN offj]) in *.
-        exists (set_ip a' (kj + offj)), (trc name a' g' ij). split; [|split; [|split]].
+        exists (set_ip a' (kj + offj)), (trc name a' g' ij). split; [|split; [|split; [|split]]].
         * eapply (xstep_goto name code a' g' ij _ kj _ a'); [exact Hip'|exact Hi2| |apply exec_jmp|].
           -- apply dec_jmp. apply small_code. unfold offj. lia.
           -- rewrite Hip'. apply goto_fwd. unfold offj, fin, kj, k1 in *. lia.
         * cbn [set_ip a_ip]. unfold offj. lia.
         * split; [apply Rg_trc; exact HG'|]. split; [exact Hops'|exact Hss'].
         * repeat split.
+        * reflexivity.
     - (* false: jump to else_stmt, push <else>, the else block, done *)
       set (ke := S kj) in *.
       set (a2 := upd a ke []).
       set (ie := mkI OP_ELSE_STMT []) in *.
       set (g2t := trc name a2 g1t ie).
       set (a2' := upd a (S ke) []).
-      assert (Hblk : post sl bt ct fin B env (set_ss a2' (S (a_ss a2'))) (push_frame g2t LElse) (in_block_ fuel els env s)).
+      assert (Hblk : post sl bt ct fin B env (frames g2t) (set_ss a2' (S (a_ss a2'))) (push_frame g2t LElse) (in_block_ fuel els env s)).
       { rewrite Hfin. fold ke.
         apply (in_block_run els Hels il sl bt ct fuel (S ke) a2' g2t env s B LElse); try assumption; try reflexivity.
         - fold ei. unfold ke. lia.
         - fold ei. eapply lc_ok_mono; [exact Hlc|unfold ke; lia|reflexivity].
         - apply Rst_upd; [|exact Hss]. apply Rg_trc. exact HG1t. }
-      eapply post_seq; [|apply same_tl_refl; exact (Rg_ne _ _ _ HG)| |exact Hblk].
+      eapply post_seq; [|apply same_tl_refl; exact (Rg_ne _ _ _ HG)| |
+        eapply post_rebase; [exact Hblk|exact Hf1|exact (lc_ok_m _ _ _ _ _ _ Hlc)]].
       + eapply xrun_trans; [exact R1|]. eapply xrun_trans.
         * eapply (xstep_goto name code a1 g1 i1 _ k1 _ (set_ops a1 []) g1t ke); [reflexivity|exact Hi1|exact Hdec|exact Hx|].
           cbn [set_ops a_ip a1 upd set_ip]. rewrite goto_fwd by (unfold off, fin, kj, k1 in *; lia).
@@ -1027,17 +1072,19 @@ Section Sim.
   Lemma back_edge : forall kj n k env2 s2 a2 g2,
     nth_error code kj = Some (mkI OP_JMP_POP [neg_off n]) -> n <= length code -> kj < length code -> kj = k + n ->
     a_ip a2 = kj -> Rst env2 s2 a2 g2 -> 2 <= length (locals env2) ->
-    exists g3, xrun name code a2 g2 (set_ip a2 k) g3 /\ Rst (pop_scope env2) s2 (set_ip a2 k) g3.
+    exists g3, xrun name code a2 g2 (set_ip a2 k) g3 /\ Rst (pop_scope env2) s2 (set_ip a2 k) g3 /\
+               frames g3 = tl (frames g2).
   Proof.
     intros kj n k env2 s2 a2 g2 Hi Hn Hkj Hk Hip (HG & Hops & Hss) Hlen.
     set (i1 := mkI OP_JMP_POP [neg_off n]) in *.
-    destruct (popn_rel 1 env2 s2 (trc name a2 g2 i1) (Rg_trc _ _ _ _ _ _ HG) ltac:(lia)) as (g3 & Hpop & HG3 & _).
-    rewrite popn_1 in HG3. exists g3. split.
+    destruct (popn_rel 1 env2 s2 (trc name a2 g2 i1) (Rg_trc _ _ _ _ _ _ HG) ltac:(lia)) as (g3 & Hpop & HG3 & Hf3 & _).
+    rewrite popn_1 in HG3. exists g3. split; [|split].
     - eapply (xstep_gotopop name code a2 g2 i1 _ kj _ 1 a2); [exact Hip|exact Hi| |apply exec_jmp_pop| |exact Hpop].
       + apply dec_jmp_pop_back. apply small_code. lia.
       + rewrite Hip. rewrite goto_back by lia. f_equal. lia.
     - split; [exact HG3|]. split; [exact Hops|]. cbn [pop_scope locals set_ip a_ss].
       destruct (locals env2); cbn [tl length] in *; lia.
+    - rewrite Hf3. cbn [trc add_trace frames]. rewrite (skipn_S_tl _ 0). reflexivity.
   Qed.
 
   Lemma while_correct : forall cnd body, block_spec body -> stmt_spec (SWhile cnd body).
@@ -1064,19 +1111,23 @@ Section Sim.
     assert (Hl1 : 1 <= length (locals env)).
     { destruct HR as (HG & _). destruct (Rfr_ne _ _ _ _ (Rg_fr _ _ _ HG)) as [Hne _].
       destruct (locals env); [congruence|cbn [length]; lia]. }
-    revert a g env s Hb Hlc Hip HR Hl1.
-    induction fuel as [|fuel IH]; intros a g env s Hb Hlc Hip HR Hl1; [exact Logic.I|].
+    enough (Hloop : forall fs0 fuel a g env s, bound_in B env -> lc_ok il sl bt ct env fin -> a_ip a = k ->
+              Rst env s a g -> 1 <= length (locals env) -> tl (frames g) = tl fs0 ->
+              post sl bt ct fin B env fs0 a g (Eval.exec fuel env (SWhile cnd body) s))
+      by (apply Hloop; auto).
+    clear a g env s Hb Hlc Hip HR Hl1 fuel. intros fs0.
+    induction fuel as [|fuel IH]; intros a g env s Hb Hlc Hip HR Hl1 Hfs; [exact Logic.I|].
     destruct HR as (HG & Hops & Hss).
     pose proof (expr_run cnd c fuel k a g env s B Hoe Hb ltac:(lia) Hce ltac:(lia) Hip Hops HG) as He.
     rewrite exec_SWhile.
     destruct (eval fuel env cnd s) as [v s1|s1|f s1|]; [|contradiction| |exact Logic.I].
     2:{ destruct He as (-> & e0 & g' & Hf & Hr & Ho). eapply post_expr_fail; eassumption. }
-    destruct He as (-> & Hfo & g1 & R1 & HG1).
+    destruct He as (-> & Hfo & g1 & R1 & HG1 & Hf1).
     fold k1 in R1.
     set (a1 := upd a k1 [inj v]) in *.
     set (g1t := trc name a1 g1 i1).
     assert (HG1t : Rg env s g1t) by (apply Rg_trc; exact HG1).
-    assert (Hnb : (forall b, v <> RBool b) -> post sl bt ct fin B env a g (SFailed (FType 12) s)).
+    assert (Hnb : (forall b, v <> RBool b) -> post sl bt ct fin B env fs0 a g (SFailed (FType 12) s)).
     { intros Hv. cbn [post]. exists E_not_bool, g1t. split; [|split; [cbn; auto|exact (Rg_out _ _ _ HG1)]].
       eapply xrun_fail; [exact R1|]. eapply xstep_fail; [reflexivity|exact Hi1|exact Hdec|].
       apply (exec_while_nb _ a1 g1t (inj v)); [reflexivity|now apply not_bool_inj]. }
@@ -1085,13 +1136,14 @@ Section Sim.
     destruct b.
     2:{ (* false: leave the loop *)
       cbn [post]. split; [apply same_tl_refl; exact (Rg_ne _ _ _ HG)|]. split; [exact Hb|].
-      exists (upd a (k1 + off) []), g1t. split; [|split; [|split]].
+      exists (upd a (k1 + off) []), g1t. split; [|split; [|split; [|split]]].
       + eapply xrun_trans; [exact R1|].
         eapply (xstep_goto name code a1 g1 i1 _ k1 _ (set_ops a1 [])); [reflexivity|exact Hi1|exact Hdec|exact Hx|].
         apply goto_fwd. cbn [set_ops a_ip a1 upd set_ip]. unfold off, fin, k1 in *. lia.
       + cbn. unfold off, fin, k1. lia.
       + apply Rst_upd; assumption.
-      + repeat split. }
+      + repeat split.
+      + exact (eq_trans Hf1 Hfs). }
     (* true: push <while>, run the body *)
     set (a1' := upd a (S k1) []).
     set (a0 := set_ss a1' (S (a_ss a1'))).
@@ -1119,11 +1171,12 @@ Section Sim.
     assert (Hlen2 : length (locals env2) = S (length (locals env))).
     { destruct (locals env2) as [|sc2 l2]; [congruence|]. cbn [tl] in Htl. subst l2. reflexivity. }
     assert (Hnext : forall a2 g2, xrun name code a0 g0 a2 g2 -> a_ip a2 = kj -> Rst env2 s2 a2 g2 -> act_same a0 a2 ->
-              post sl bt ct fin B env a g (Eval.exec fuel (pop_scope env2) (SWhile cnd body) s2)).
-    { intros a2 g2 R2 Hip2 HR2 Ha2.
+              tl (frames g2) = frames g1t ->
+              post sl bt ct fin B env fs0 a g (Eval.exec fuel (pop_scope env2) (SWhile cnd body) s2)).
+    { intros a2 g2 R2 Hip2 HR2 Ha2 Hf2.
       destruct (back_edge kj (1 + length cb0 + length (pcode c cnd)) k env2 s2 a2 g2 Hi2 ltac:(lia) ltac:(lia)
-                  ltac:(unfold kj, k1; lia) Hip2 HR2 ltac:(lia)) as (g3 & R3 & HR3).
-      eapply (post_seq sl bt ct fin B env a g (pop_scope env2) (set_ip a2 k) g3);
+                  ltac:(unfold kj, k1; lia) Hip2 HR2 ltac:(lia)) as (g3 & R3 & HR3 & Hf3).
+      eapply (post_seq sl bt ct fin B env fs0 a g (pop_scope env2) (set_ip a2 k) g3);
         [eapply xrun_trans; [exact R0|eapply xrun_trans; [exact R2|exact R3]]|exact Hd'| |].
       - destruct Ha2 as (A1 & A2 & A3). repeat split; assumption.
       - apply IH.
@@ -1131,17 +1184,19 @@ Section Sim.
         + eapply lc_ok_mono; [exact Hlc|lia|]. cbn [pop_scope locals]. now rewrite Htl.
         + reflexivity.
         + exact HR3.
-        + cbn [pop_scope locals]. rewrite Htl. exact Hl1. }
+        + cbn [pop_scope locals]. rewrite Htl. exact Hl1.
+        + rewrite Hf3, Hf2. exact (eq_trans Hf1 Hfs). }
     destruct sig as [| | |rv].
-    - destruct H as (_ & a2 & g2 & R2 & Hip2 & HR2 & Ha2). eapply Hnext; eassumption.
+    - destruct H as (_ & a2 & g2 & R2 & Hip2 & HR2 & Ha2 & Hf2). eapply Hnext; eassumption.
     - (* break: control is at fin, the <while> frame is gone *)
-      destruct H as (m & a2 & g2 & Esl & R2 & Hip2 & HR2 & Ha2). inversion Esl; subst m.
+      destruct H as (m & a2 & g2 & Esl & R2 & Hip2 & HR2 & Ha2 & Hf2). inversion Esl; subst m.
       rewrite popn_1 in HR2.
       cbn [post]. split; [exact Hd'|]. split; [eapply bound_in_eq; [exact Hb|exact Htl]|].
       exists a2, g2. split; [eapply xrun_trans; eassumption|]. split; [exact Hip2|]. split; [exact HR2|].
-      destruct Ha2 as (A1 & A2 & A3). repeat split; assumption.
+      split; [destruct Ha2 as (A1 & A2 & A3); repeat split; assumption|].
+      rewrite Hf2. exact (eq_trans Hf1 Hfs).
     - (* continue: control is at the back edge, the <while> frame still there *)
-      destruct H as (m & a2 & g2 & Esl & R2 & Hip2 & HR2 & Ha2). inversion Esl; subst m.
+      destruct H as (m & a2 & g2 & Esl & R2 & Hip2 & HR2 & Ha2 & Hf2). inversion Esl; subst m.
       cbn [Nat.sub] in HR2. rewrite popn_0 in HR2. eapply Hnext; eassumption.
     - destruct H.
   Qed.
@@ -1251,7 +1306,8 @@ Theorem cblock_correct : forall l B, ok_block false B l = true ->
   match exec_block fuel env l s with
   | SOk SigNormal env' s' => exists n a' g',
         xsteps name code n (Running a g) = Running a' g' /\ a_ip a' = fin /\
-        Rst env' s' a' g' /\ act_same a a' /\ same_tl env env' /\ bound_in (after_l B l) env'
+        Rst env' s' a' g' /\ act_same a a' /\ same_tl env env' /\ bound_in (after_l B l) env' /\
+        tl (frames g') = tl (frames g)
   | SOk _ _ _ => False
   | SFailed f s' => exists n e g',
         xsteps name code n (Running a g) = Failed e g' /\ err_rel_s f e /\ out g' = rout s'
@@ -1271,9 +1327,9 @@ Proof.
   specialize (H Hit Hend Hlc Hip HR).
   destruct (exec_block fuel env l s) as [sig env' s'|f s'|]; [| |exact Logic.I].
   - cbn [post] in H. destruct H as [Hd H]. destruct sig as [| | |rv].
-    + destruct H as (HB' & a' & g' & [n R] & Hip' & HR' & Ha). exists n, a', g'. split; [exact R|]. split; [exact Hip'|]. split; [exact HR'|]. split; [exact Ha|]. split; [exact Hd|exact HB'].
-    + destruct H as (m & _ & _ & E & _). discriminate.
-    + destruct H as (m & _ & _ & E & _). discriminate.
+    + destruct H as (HB' & a' & g' & [n R] & Hip' & HR' & Ha). exists n, a', g'. split; [exact R|]. split; [exact Hip'|]. split; [exact HR'|]. split; [exact (proj1 Ha)|]. split; [exact Hd|]. split; [exact HB'|exact (proj2 Ha)].
+    + destruct H as (m & ? & ? & E & _). discriminate.
+    + destruct H as (m & ? & ? & E & _). discriminate.
     + exact H.
   - cbn [post] in H. destruct H as (e & g' & [n R] & Hr & Ho). exists n, e, g'. auto.
 Qed.
@@ -1341,7 +1397,7 @@ Proof.
     as [sig env' s'|f s'|]; [| |cbn in Hnf; congruence].
   - destruct sig; try contradiction.
     destruct H as (n & a' & g' & Hn & Hip & (HG & Hops & Hss) & Ha & Hd).
-    destruct Hd as [Hd HB']. pose proof (same_tl_length {| locals := [[]]; captured := []; cur := None |} env' ltac:(cbn; discriminate) Hd) as Hl. cbn [locals length] in Hl.
+    destruct Hd as (Hd & HB' & _). pose proof (same_tl_length {| locals := [[]]; captured := []; cur := None |} env' ltac:(cbn; discriminate) Hd) as Hl. cbn [locals length] in Hl.
     pose proof (Rg_base _ _ _ _ HG) as Hbase. rewrite Hl in Hbase.
     pose proof (Rg_fr _ _ _ _ HG) as Hfr.
     destruct (locals env') as [|sc [|sc' l']]; cbn [length] in Hl; try discriminate.
